@@ -1,4 +1,4 @@
-import TornadoModel.C06.Roundtrip
+import TornadoModel.C06.Grammar
 /-!
 C06 — property theorems: HTTP header maps behave as a case-insensitive insertion-ordered multimap.
 Only property theorems and non-vacuity examples live here; helper lemmas are in `Lemmas`, `Norm`, `Refine`.
@@ -47,6 +47,106 @@ theorem cache_sound_run (ops : List Op) : CacheSound (run empty ops).1 :=
 theorem refines_multimap (ops : List Op) : (run empty ops).2 = (Spec.run Spec.empty ops).2 :=
   (run_refines R_empty ops).1
 
+/-- **Reading a name returns its values joined by commas** — stated on the implementation model alone: after any
+    history, whenever `h[n]` returns a value (from the combined-value cache or freshly joined), that value is the
+    comma-join of what `get_list(n)` returns at that moment, the list is non-empty, and the read changes nothing that
+    `get_list`/`get_all`/iteration can see. -/
+theorem get_is_joined_list (ops : List Op) (n v : Str) (h' : Headers)
+    (hg : getItem (run empty ops).1 n = .ok (v, h')) :
+    v = joinWith [cComma] (getList (run empty ops).1 n) ∧ getList (run empty ops).1 n ≠ [] ∧
+      h'.asList = (run empty ops).1.asList := by
+  obtain ⟨_, r⟩ := run_refines R_empty ops
+  have w := WF_run WF_empty ops
+  unfold getItem at hg
+  unfold getList
+  cases hc : dget (normalize n) (run empty ops).1.cache with
+  | some v' =>
+    obtain ⟨vs, h1, h2⟩ := r.cache _ _ hc
+    simp only [hc] at hg
+    cases hg
+    simp only [h1, Option.getD_some]
+    exact ⟨h2, w.nonempty _ (mem_of_dget _ _ _ h1), trivial⟩
+  | none =>
+    cases ha : dget (normalize n) (run empty ops).1.asList with
+    | some vs =>
+      simp only [hc, ha] at hg
+      cases hg
+      simp only [Option.getD_some]
+      exact ⟨trivial, w.nonempty _ (mem_of_dget _ _ _ ha), trivial⟩
+    | none => simp [hc, ha] at hg
+
+/-- **Line parsing, field line** (grammar stated from the outside: `field-name ":" OWS field-value OWS`, terminated by
+    nothing, LF or CR LF): after any history, parsing such a line is exactly `add(name, value)` — same output, same
+    state.  (`AllWs` = only SP/HTAB; `IsEol e` = `e ∈ {"", "\n", "\r\n"}`.) -/
+theorem field_line_is_add (ops : List Op) (k v a b e : Str) (hk : isToken k = true) (hv : isFieldValue v = true)
+    (ha : AllWs a) (hb : AllWs b) (he : IsEol e) :
+    step (run empty ops).1 (.parseLine ((k ++ cColon :: (a ++ v ++ b)) ++ e)) = step (run empty ops).1 (.add k v) := by
+  simp only [step, parseLine_field_line _ k v a b e hk hv ha hb he]
+
+/-- **Line parsing, continuation line**: after any history, `add(k, v)` followed by a continuation line
+    (`(SP|HTAB)+ text OWS`, terminated by nothing, LF or CR LF) makes `get_list(k)` end in `v + " " + text` (earlier
+    values untouched) and `h[k]` return the comma-join of that list — the combined-value cache does not keep the
+    value from before the fold. -/
+theorem obs_fold_extends_last_value (ops : List Op) (k v a body b e : Str) (hk : isToken k = true)
+    (hv : isFieldValue v = true) (ha : AllWs a) (hane : a ≠ []) (hb : AllWs b) (hbody : isFieldValue body = true)
+    (he : IsEol e) :
+    (run empty (ops ++ [.add k v, .parseLine ((a ++ body ++ b) ++ e), .getList k, .get k])).2
+      = (run empty ops).2 ++ [.unit, .unit, .vals (getList (run empty ops).1 k ++ [v ++ cSp :: body]),
+          .val (joinWith [cComma] (getList (run empty ops).1 k ++ [v ++ cSp :: body]))] := by
+  rw [run_append]
+  simp only [List.append_cancel_left_eq]
+  obtain ⟨h1, ha1, hl1, hg1⟩ := add_ok_shape (run empty ops).1 k v hk hv
+  have hf := parseLine_obs_fold h1 a body b e (normalize k) _ ha hane hb hbody he hl1 hg1
+  simp only [List.append_assoc] at hf
+  simp [run, step, ha1, hf, getList, getItem, dget_dset_same, dget_ddel_same, appendToLast_snoc]
+
+/-- **Line parsing, field line, character mode** (`_chars_are_bytes=False`, multipart part headers): the value may be
+    any text without control characters — code points ≥ 0x100 included; the line is `add(name, value,
+    _chars_are_bytes=False)`, which succeeds and appends the value: `get_list(name)` afterwards = before ++ [value]. -/
+theorem field_line_is_add_chars (ops : List Op) (k v a b e : Str) (hk : isToken k = true)
+    (hv : hasForbidden v = false) (h1 : ∀ c ∈ v.head?, isWs c = false) (h2 : ∀ c ∈ v.reverse.head?, isWs c = false)
+    (ha : AllWs a) (hb : AllWs b) (he : IsEol e) :
+    ∃ h', parseLine (run empty ops).1 ((k ++ cColon :: (a ++ v ++ b)) ++ e) false = .ok h' ∧
+      add (run empty ops).1 k v false = .ok h' ∧ getList h' k = getList (run empty ops).1 k ++ [v] := by
+  rw [parseLine_field_line_chars _ k v a b e hk hv h1 h2 ha hb he]
+  unfold add getList
+  simp only [hk, hv, Bool.not_true, Bool.false_eq_true, if_false, Bool.and_false, Bool.true_and, Bool.false_and,
+    Bool.not_false, Bool.and_true]
+  cases hg : dget (normalize k) (run empty ops).1.asList with
+  | some vs => exact ⟨_, rfl, rfl, by simp [dget_dset_same]⟩
+  | none => exact ⟨_, rfl, rfl, by simp [setItem, normalize_idem, dget_dset_same]⟩
+
+/-- **Line parsing, malformed lines**: after any history, a line that is neither a field line nor a continuation
+    line (`Malformed`: no colon / the text before the colon is not a token / the value without its surrounding blanks is
+    not a field-value), terminated by nothing, LF or CR LF, is rejected with `HTTPInputError` and leaves the map as it
+    was. -/
+theorem malformed_line_rejected (ops : List Op) (l e : Str) (hm : Malformed l) (he : IsEol e) :
+    step (run empty ops).1 (.parseLine (l ++ e)) = ((run empty ops).1, .err .httpInput) := by
+  simp only [step, parseLine_malformed _ l e hm he]
+
+/-- **Line parsing, bad continuation lines**: a continuation line whose text is not a field-value is rejected after
+    any history, and ANY (non-blank) continuation line is rejected as the first line; the map stays as it was. -/
+theorem bad_continuation_rejected (ops : List Op) (a body b e : Str) (ha : AllWs a) (hane : a ≠ []) (hb : AllWs b)
+    (h1 : ∀ c ∈ body.head?, isWs c = false) (h2 : ∀ c ∈ body.reverse.head?, isWs c = false)
+    (hw : NoEolChar body) (he : IsEol e) :
+    (isFieldValue body = false →
+      step (run empty ops).1 (.parseLine ((a ++ body ++ b) ++ e)) = ((run empty ops).1, .err .httpInput)) ∧
+    step empty (.parseLine ((a ++ body ++ b) ++ e)) = (empty, .err .httpInput) := by
+  have hnb : a ++ body ++ b ≠ [] := by
+    cases a with
+    | nil => exact absurd rfl hane
+    | cons c cs => simp
+  refine ⟨fun hv => ?_, ?_⟩
+  · have : parseLine (run empty ops).1 ((a ++ body ++ b) ++ e) = .error .httpInput := by
+      apply parseLine_bad_fold _ a body b e ha hane hb h1 h2 hw he _ hnb
+      cases hl : (run empty ops).1.lastKey with
+      | none => exact Or.inl rfl
+      | some k => exact Or.inr ⟨hv, by simp⟩
+    simp only [step, this]
+  · have : parseLine empty ((a ++ body ++ b) ++ e) = .error .httpInput :=
+      parseLine_bad_fold _ a body b e ha hane hb h1 h2 hw he (Or.inl rfl) hnb
+    simp only [step, this]
+
 /-- **Present ⇒ deletable**: in every reachable state, a name reported present can be deleted
     (this is the clause the pre-fix code violated: `del` raised `KeyError` from the cache dict). -/
 theorem present_deletable (ops : List Op) (n : Str) :
@@ -67,6 +167,95 @@ theorem deleted_absent (ops : List Op) (n : Str) (h' : Headers) :
     simp [contains, dhas, dget_ddel_same]
   · cases hd
 
+/-- a successful delete from a state related to a multimap lands in a state related to a multimap -/
+theorem delItem_related {h : Headers} {m : Spec.M} (r : R h m) (n : Str) (h' : Headers)
+    (hd : delItem h n = .ok h') : ∃ m', R h' m' := by
+  have := del_refines r n
+  rw [hd] at this
+  unfold Agree at this
+  cases hs : Spec.del m n with
+  | ok m' => rw [hs] at this; exact ⟨m', this⟩
+  | error e => rw [hs] at this; exact this.elim
+
+/-- **Present ⇒ deletable — every way of reporting, every spelling** (uses reachability: stored keys are
+    normalised, the cache is sound).  After any history, if ANY read API reports the name `n` — `n in h`, iteration,
+    `get_all()`, a non-empty `get_list(n)`, or `h[n]` returning a value (answered from the combined-value cache
+    when one is there) — then `del h[n']` succeeds for every spelling `n'` of the name, and afterwards NO read
+    API reports either spelling any more (in particular the cache entry is gone: `h[n]` raises `KeyError`). -/
+theorem reported_deletable (ops : List Op) (n n' : Str) (hn : n.map lowerC = n'.map lowerC)
+    (hr : Reported (run empty ops).1 n) :
+    ∃ h', delItem (run empty ops).1 n' = .ok h' ∧ ¬ Reported h' n ∧ ¬ Reported h' n' := by
+  obtain ⟨_, r⟩ := run_refines R_empty ops
+  have hh := reported_has r n hr
+  have hk : normalize n' = normalize n := (normalize_eq_iff_lower_eq _ _).2 hn.symm
+  have hd : delItem (run empty ops).1 n' = .ok { (run empty ops).1 with
+      cache := ddel (normalize n') (run empty ops).1.cache, asList := ddel (normalize n') (run empty ops).1.asList } := by
+    unfold delItem
+    simp only [hk, hh, if_true]
+  obtain ⟨m', r'⟩ := delItem_related r n' _ hd
+  refine ⟨_, hd, ?_, ?_⟩
+  · intro hrep
+    have := reported_has r' n hrep
+    simp [dhas, hk, dget_ddel_same] at this
+  · intro hrep
+    have := reported_has r' n' hrep
+    simp [dhas, dget_ddel_same] at this
+
+/-- **Present ⇒ deletable, stated on the outputs of a run**: append `n in h`, `del h[n']`, `n in h`, `h[n]` to
+    any history (`n'` any spelling of `n`).  The four outputs are `True, None, False, KeyError` or
+    `False, KeyError, False, KeyError` — never `True` followed by a failing delete, and a deleted name is gone for
+    membership and for the (cached) read alike. -/
+theorem present_deletable_run (ops : List Op) (n n' : Str) (hn : n.map lowerC = n'.map lowerC) :
+    (run empty (ops ++ [.contains n, .del n', .contains n, .get n])).2
+        = (run empty ops).2 ++ [.bool true, .unit, .bool false, .err .keyError] ∨
+    (run empty (ops ++ [.contains n, .del n', .contains n, .get n])).2
+        = (run empty ops).2 ++ [.bool false, .err .keyError, .bool false, .err .keyError] := by
+  obtain ⟨_, r⟩ := run_refines R_empty ops
+  have hk : normalize n' = normalize n := (normalize_eq_iff_lower_eq _ _).2 hn.symm
+  rw [run_append]
+  simp only [List.append_cancel_left_eq]
+  cases hc : contains (run empty ops).1 n with
+  | true =>
+    left
+    obtain ⟨h', hd, hnr, _⟩ := reported_deletable ops n n' hn (Or.inl hc)
+    have h1 : contains h' n = false := by
+      cases hb : contains h' n with
+      | false => rfl
+      | true => exact (hnr (Or.inl hb)).elim
+    have h2 : getItem h' n = .error .keyError := by
+      cases hg : getItem h' n with
+      | ok p => exact (hnr (Or.inr (Or.inr (Or.inr (Or.inr ⟨p.1, p.2, hg⟩))))).elim
+      | error e => rw [getItem_err _ _ _ hg]
+    simp [run, step, hc, hd, h1, h2]
+  | false =>
+    right
+    have hd : delItem (run empty ops).1 n' = .error .keyError := by
+      unfold delItem
+      unfold contains at hc
+      simp [hk, hc]
+    have h2 : getItem (run empty ops).1 n = .error .keyError := by
+      cases hg : getItem (run empty ops).1 n with
+      | ok p =>
+        have := reported_has r n (Or.inr (Or.inr (Or.inr (Or.inr ⟨p.1, p.2, hg⟩))))
+        unfold contains at hc
+        rw [hc] at this
+        cases this
+      | error e => rw [getItem_err _ _ _ hg]
+    simp [run, step, hc, hd, h2]
+
+/-- the statement of `reported_deletable` discriminates: with the `__delitem__` of the code before the fix
+    (`del self._combined_cache[n]` first) it is FALSE on a reachable state — `add A 1; h["A"]; add a 2` leaves
+    `A` present with its cache entry dropped. -/
+theorem present_deletable_prefix_refuted :
+    ¬ (∀ (ops : List Op) (n : Str), contains (run empty ops).1 n = true →
+        ∃ h', delItemPreFix (run empty ops).1 n = .ok h') := by
+  intro hall
+  obtain ⟨h', hd⟩ := hall [Op.add [65] [49], Op.get [65], Op.add [97] [50]] [65] (by decide)
+  have : delItemPreFix (run empty [Op.add [65] [49], Op.get [65], Op.add [97] [50]]).1 [65] = .error .keyError := by
+    rfl
+  rw [this] at hd
+  cases hd
+
 /-- **Copy**: in every reachable state whose names/values are ones `add` accepts (they always are unless
     `__setitem__` stored something `add` would reject), the copy constructor succeeds and yields a map with
     exactly the same entries, in the same order.  (Independence of the two objects is an aliasing question the
@@ -78,6 +267,17 @@ theorem copy_equal (ops : List Op) (hv : Valid (run empty ops).1.asList) :
   obtain ⟨c, h1, h2⟩ := copy_fold (run empty ops).1.asList empty r.normed w.nodup w.nonempty hv
     (by simp [empty, dkeys])
   exact ⟨c, h1, by simpa [empty] using h2⟩
+
+/-- **A copy is a multimap of its own**: after any history, if the copy constructor succeeds, then EVERY further
+    history run on the copy produces exactly the outputs of the multimap copy (`Spec.copy`: a fresh multimap holding the
+    same pairs) — the copy's cache and `_last_key` are consistent, whatever the original's were — while every
+    further history on the original produces the outputs of the multimap it was.  (That the two Python objects
+    share no mutable list is an aliasing fact outside this immutable model: correspondence stream, `copy` cases.) -/
+theorem copy_behaves_as_multimap (ops after : List Op) (c : Headers) (hc : copy (run empty ops).1 = .ok c) :
+    (run c after).2 = (Spec.run (Spec.copy (Spec.run Spec.empty ops).1) after).2 ∧
+    ∀ after2, (run (run empty ops).1 after2).2 = (Spec.run (Spec.run Spec.empty ops).1 after2).2 := by
+  obtain ⟨_, r⟩ := run_refines R_empty ops
+  exact ⟨(run_refines (copy_related r hc) after).1, fun after2 => (run_refines r after2).1⟩
 
 theorem validPairs_getAll (l : List (Str × List Str)) (hv : Valid l) :
     ValidPairs (l.flatMap (fun (k, vs) => vs.map (fun v => (k, v)))) := by
@@ -105,6 +305,37 @@ example :
     let ops := [Op.add [65] [49], Op.get [65], Op.add [97] [50]]
     contains (run empty ops).1 [65] = true ∧ (run empty ops).1.cache = [] ∧
       (step (run empty ops).1 (.del [65])).2 = .unit := by decide
+
+/-! non-vacuity of `reported_deletable`: a reachable state where iteration and the cached read report the name
+    under the stored spelling, and another spelling is deleted -/
+example :
+    let h := (run empty [Op.add [97, 45, 98] [49], Op.get [65, 45, 66]]).1
+    [65, 45, 66] ∈ keys h ∧ h.cache ≠ [] ∧ Reported h [65, 45, 66] ∧
+      [65, 45, 66].map lowerC = [97, 45, 66].map lowerC := by
+  refine ⟨by decide, by decide, Or.inr (Or.inl (by decide)), by decide⟩
+
+/-! non-vacuity of `copy_behaves_as_multimap`: a reachable state with a stale-prone cache whose copy succeeds -/
+example : ∃ c, copy (run empty [Op.add [65] [49], Op.get [65], Op.add [97] [50], Op.set [66] [51]]).1 = .ok c :=
+  ⟨_, rfl⟩
+
+/-! non-vacuity of `get_is_joined_list`: a cached two-value read -/
+example : ∃ h', getItem (run empty [Op.add [65] [49], Op.add [97] [50], Op.get [65]]).1 [97] = .ok ([49, 44, 50], h') :=
+  ⟨_, rfl⟩
+
+/-! non-vacuity of the line-grammar theorems: `"X-y:\t v w  \r\n"` and the continuation `" \tz \n"` -/
+example : isToken [88, 45, 121] = true ∧ isFieldValue [118, 32, 119] = true ∧ AllWs [9, 32] ∧ AllWs [32, 32] ∧
+    IsEol [cCr, cLf] ∧ isFieldValue [122] = true ∧ IsEol [cLf] := by
+  refine ⟨by decide, by decide, ?_, ?_, Or.inr (Or.inr rfl), by decide, Or.inr (Or.inl rfl)⟩ <;>
+    (intro c hc; simp at hc; rcases hc with rfl | rfl <;> decide)
+
+/-! non-vacuity of `Malformed`: `"nocolon"`-like, `"a b: c"`-like and `"a: x\x00"`-like lines -/
+example : Malformed [110, 111] ∧ Malformed ([97, 32, 98] ++ cColon :: [32, 99]) ∧
+    Malformed ([97] ++ cColon :: ([32] ++ [120, 0] ++ [])) := by
+  refine ⟨.noColon _ (by decide) (by intro c hc; simp at hc; subst hc; decide) (by decide) ?_,
+    .badName _ _ (by decide) (by intro c hc; simp at hc; subst hc; decide) (by decide) ?_,
+    .badValue _ _ _ _ (by decide) ?_ (by intro c hc; simp at hc) (by intro c hc; simp at hc; subst hc; decide)
+      (by intro c hc; simp at hc; subst hc; decide) (by decide) ?_⟩
+  all_goals (intro c hc; simp [cColon] at hc; rcases hc with rfl | rfl | rfl | rfl | rfl | rfl <;> decide)
 
 /-! non-vacuity of `Valid`: a reachable multi-valued, multi-name state satisfies it -/
 example : Valid (run empty [Op.add [65] [49], Op.add [97] [50], Op.set [66, 45, 99] [51, 32, 52]]).1.asList := by
